@@ -263,6 +263,8 @@ def run(chk):
                 sig = "nocompile:unknownType"
             elif src.startswith("EXC "):
                 sig = "decompiler-raised:" + src.split(":")[0][4:]
+            elif "possible lossy conversion from" in what:
+                sig = "nocompile:javac: possible lossy conversion (variable typed by one narrowing / long use of its register)"
             else:
                 sig = "nocompile:" + re.sub(r"[0-9]+", "N", what.split("\n")[0])[:80]
         else:
